@@ -9,6 +9,7 @@ D. Bootstraps: every answer of random.choices for <= 4 chunks.
 E. Statistics: every 1-D spectrum with <= 3 SNPs (n <= 6) and 2-D spectra, realised as haplotype matrices: S, pi (brute-force pairwise differences),
    Watterson, Tajima's D (constants from Tajima 1989), theta_L, Weir-Cockerham Fst.
 """
+import copy
 import itertools
 import math
 import os
@@ -23,7 +24,7 @@ from mc import explore
 
 LEVEL = 'model_checking'
 SCRATCH = os.path.join(os.path.dirname(os.path.dirname(os.path.abspath(__file__))), '.scratch')
-GT = ['0/0', '0/1', '1/1', './.', '0|1', '1|0']
+GT = ['0/0', '0/1', '1/1', './.', '0|1', '1|0', '0/.', './1']      # the last two: half calls (one allele missing)
 AA_FORMS = ['ref', 'alt', 'missing', 'third', 'multi', 'lower_alt', 'dot']
 FILTERS = ['PASS', '.', 'q10']
 ALLELE_FORMS = ['plain', 'lower', 'multichar_alt', 'multiallelic', 'indel_ref']
@@ -95,7 +96,19 @@ def _covering(gts, ci):
     return code % 17 == ci % 17
 
 
-def write_vcf(path, rows, layout, with_dp=False, unlisted=()):
+def zero_depth(ri, i):
+    """which samples carry a genotype but no reads at all (DP=0 / AD=0,0 - the newer way of marking a missing call) when a depth format is used"""
+    return (ri + 2 * i) % 3 == 0
+
+
+def depth_fields(fmt, zero):
+    out = []
+    for f in fmt.split(':')[1:]:
+        out.append(('0' if zero else '7') if f == 'DP' else ('0,0' if zero else '4,3'))
+    return ':'.join(out)
+
+
+def write_vcf(path, rows, layout, with_dp=False, unlisted=(), fmt=None):
     """unlisted: column positions (in the final sample-column order) of extra samples that the population file does not mention - they are
     documented to be skipped, wherever they stand"""
     names = []
@@ -111,12 +124,14 @@ def write_vcf(path, rows, layout, with_dp=False, unlisted=()):
         for ri, r in enumerate(rows):
             ref, alt = allele_strings(r.alleles)
             info, _ = aa_field(r.aa)
-            fmt = 'GT:DP' if with_dp else 'GT'
+            fmt_s = fmt if fmt else ('GT:DP' if with_dp else 'GT')
             samples = [(g + ':7') if with_dp else g for g in r.gts]
+            if fmt:
+                samples = [g + ':' + depth_fields(fmt, zero_depth(ri, i) and '.' not in g) for i, g in enumerate(r.gts)]
             for q, pos in enumerate(sorted(unlisted)):
                 g = ('1/1', '0/1', './.', '0|0')[(ri + q) % 4]
                 samples.insert(pos, (g + ':7') if with_dp else g)
-            f.write('\t'.join([r.chrom, str(r.pos), '.', ref, alt, '50', r.filt, info, fmt] + samples) + '\n')
+            f.write('\t'.join([r.chrom, str(r.pos), '.', ref, alt, '50', r.filt, info, fmt_s] + samples) + '\n')
     return names
 
 
@@ -204,7 +219,15 @@ def case_vcf(col, p):
     try:
         vcf = os.path.join(tmp, 'x.vcf')
         pop = os.path.join(tmp, 'pop.txt')
-        names = write_vcf(vcf, rows, layout, with_dp=p.get('dp', False), unlisted=p.get('unlisted', ()))
+        names = write_vcf(vcf, rows, layout, with_dp=p.get('dp', False), unlisted=p.get('unlisted', ()), fmt=p.get('fmt'))
+        if p.get('fmt'):
+            # a genotype without a single read is a missing call, whichever depth field says so: the oracle sees it as './.'
+            eff = []
+            for ri, r in enumerate(rows):
+                r2 = copy.copy(r)
+                r2.gts = tuple('./.' if (zero_depth(ri, i) and '.' not in g) else g for i, g in enumerate(r.gts))
+                eff.append(r2)
+            rows = eff
         write_popinfo(pop, names, layout)
         dd = dadi.Misc.make_data_dict_vcf(vcf, pop)
         col.tick(transitions=len(rows))
@@ -214,7 +237,7 @@ def case_vcf(col, p):
         for r in rows:
             key = '%s_%d' % (r.chrom, r.pos)
             ok, calls, anc = oracle_calls(r, layout)
-            info = dict(layout=layout, gts=r.gts, aa=r.aa, filter=r.filt, alleles=r.alleles, kind='vcf')
+            info = dict(p, layout=layout, gts=r.gts, aa=r.aa, filter=r.filt, alleles=r.alleles, kind='vcf')
             if not ok:
                 if key in dd:
                     col.violation('C13:make_data_dict_vcf:unusable_snp_kept', info, {'entry': repr(dd[key])[:200]})
@@ -242,7 +265,7 @@ def case_vcf(col, p):
                 col.tick(transitions=1)
                 ex, nused = oracle_spectrum(rows, layout, proj, polarized)
                 gd = np.asarray(fs.data)
-                info = dict(layout=layout, proj=proj, polarized=polarized, kind='vcf')
+                info = dict(p, layout=layout, proj=proj, polarized=polarized, kind='vcf')
                 if gd.shape != ex.shape or not np.allclose(gd, ex, rtol=1e-11, atol=1e-9):
                     col.violation('C13:from_data_dict:spectrum', info, {'maxerr': float(np.abs(gd - ex).max()) if gd.shape == ex.shape else 'shape'})
                 else:
@@ -254,7 +277,7 @@ def case_vcf(col, p):
         col.tick(states=len(rows), traces=len(projs) * 2)
     finally:
         shutil.rmtree(tmp, ignore_errors=True)
-    col.distinct('nontrivial', ('vcf', layout, p.get('dp', False), tuple(p.get('unlisted', ()))))
+    col.distinct('nontrivial', ('vcf', layout, p.get('dp', False), tuple(p.get('unlisted', ())), p.get('fmt')))
 
 
 def case_snpfile(col, p):
@@ -322,17 +345,22 @@ def case_subsample(col, p):
     nind = sum(layout)
     rows = []
     pos = 0
-    for gts in itertools.product(GT[:5], repeat=nind):
+    for gts in itertools.product(GT[:5] + GT[6:], repeat=nind):
         r = Row()
         pos += 1
         r.chrom, r.pos, r.gts, r.aa, r.filt, r.alleles = chroms[pos % 2], pos, gts, 'ref', 'PASS', 'plain'
         rows.append(r)
+    fmt = p.get('fmt')
+    eff_gts = {}
+    for ri, r in enumerate(rows):
+        # with a DP field, a genotype without reads is a missing call for the subsampling too
+        eff_gts[id(r)] = tuple('./.' if (fmt and 'DP' in fmt and zero_depth(ri, i) and '.' not in g) else g for i, g in enumerate(r.gts))
     tmp = _tmp()
     real_choice = numpy.random.choice
     try:
         vcf = os.path.join(tmp, 'x.vcf')
         popf = os.path.join(tmp, 'pop.txt')
-        names = write_vcf(vcf, rows, layout)
+        names = write_vcf(vcf, rows, layout, fmt=fmt)
         write_popinfo(popf, names, layout)
         pops = ['pop%d' % k for k in range(len(layout))]
         subs = {q: s for q, s in zip(pops, sub)}
@@ -357,12 +385,12 @@ def case_subsample(col, p):
             col.tick(transitions=len(rows))
             for r in rows:
                 key = '%s_%d' % (r.chrom, r.pos)
-                info = dict(kind='subsample', layout=layout, subsample=sub, answer=a, gts=r.gts)
+                info = dict(p, kind='subsample', layout=layout, subsample=sub, answer=a, gts=r.gts)
                 k = 0
                 exp = []
                 enough = True
                 for n, s in zip(layout, sub):
-                    called = [g for g in r.gts[k:k + n] if '.' not in g]
+                    called = [g for g in eff_gts[id(r)][k:k + n] if '.' not in g]
                     k += n
                     if len(called) < s:
                         enough = False
@@ -388,7 +416,7 @@ def case_subsample(col, p):
     finally:
         numpy.random.choice = real_choice
         shutil.rmtree(tmp, ignore_errors=True)
-    col.distinct('nontrivial', ('subsample', layout, sub))
+    col.distinct('nontrivial', ('subsample', layout, sub, fmt))
 
 
 def case_chunks(col, p):
@@ -653,9 +681,15 @@ def run(ctx):
     for unl in ([0], [1], [2], [3], [0, 2], [1, 4]):
         cases.append({'kind': 'vcf', 'layout': (2, 1), 'unlisted': unl})
     cases.append({'kind': 'vcf', 'layout': (1, 2), 'unlisted': [1]})
+    # depth formats: a third of the called genotypes carry no reads at all (DP=0 and/or AD=0,0) and count as missing
+    for fmt in ('GT:DP', 'GT:AD', 'GT:AD:DP', 'GT:DP:AD'):
+        cases.append({'kind': 'vcf', 'layout': (2, 1), 'fmt': fmt})
     cases.append({'kind': 'snpfile'})
     for layout, sub in (((3,), (2,)), ((3,), (1,)), ((3,), (3,)), ((2, 2), (1, 2)), ((2, 2), (1, 1)), ((4,), (2,))) + ((((3, 2), (2, 1)), ((5,), (3,)), ((5,), (2,)), ((6,), (3,)), ((3, 3), (2, 2)), ((4, 2), (2, 1)), ((2, 2, 2), (1, 1, 1))) if not ctx.quick else ()):
         cases.append({'kind': 'subsample', 'layout': layout, 'subsample': sub})
+    for fmt in ('GT:DP', 'GT:AD:DP'):
+        cases.append({'kind': 'subsample', 'layout': (3,), 'subsample': (2,), 'fmt': fmt})
+        cases.append({'kind': 'subsample', 'layout': (2, 2), 'subsample': (1, 2), 'fmt': fmt})
     cases.append({'kind': 'chunks'})
     for layout in ((2,), (1, 2)) + (((3,), (2, 2)) if not ctx.quick else ()):
         cases.append({'kind': 'boot_subsample', 'layout': layout})
